@@ -575,6 +575,7 @@ func (a *Analyzer) onOpen(n *nodeState, r *ev.Rec) {
 			a.find("C10", "term-regress-after-restart", "", r.Q, "%s restarts with term %d, had reported %d (crash point %q)", n.key, st.Term, n.maxTerm, n.crashPoint)
 		}
 		if n.ackVoteTerm != 0 && st.Term == n.ackVoteTerm && st.Vote != n.ackVoteFor {
+			a.find("C01", "vote-lost-after-restart", "", r.Q, "%s granted its vote in term %d to %d but restarts in that term with vote %d: it can vote for another candidate in the same term", n.key, n.ackVoteTerm, n.ackVoteFor, st.Vote)
 			a.find("C05", "vote-lost-after-restart", "", r.Q, "%s granted its vote in term %d to %d but restarts with vote %d", n.key, n.ackVoteTerm, n.ackVoteFor, st.Vote)
 			a.find("C10", "vote-lost-after-restart", "", r.Q, "%s granted its vote in term %d to %d but restarts with vote %d (crash point %q)", n.key, n.ackVoteTerm, n.ackVoteFor, st.Vote, n.crashPoint)
 		}
